@@ -8,6 +8,7 @@ import (
 	"io"
 	"math/rand"
 	"strings"
+	"sync/atomic"
 	"testing/iotest"
 	"time"
 
@@ -214,6 +215,9 @@ func runReaderHistory(cs *drv.Case, ops []rOp, spec srcSpec, o readerOpts) (nont
 	// a history is a handful of in-memory calls (microseconds). A call of the library that has not returned
 	// after historyBound is a call that does not return: the only wall-clock verdict of the framework,
 	// five orders of magnitude above the cost of what it bounds.
+	if historyGaveUp.Load() {
+		return false // a call of this worker never returned (already reported): further histories would only wait again
+	}
 	returned, pnc := cs.C.Bounded(historyBound, "reader history "+opsString(ops), func() {
 		nontrivial = runReaderHistoryInner(cs, ops, spec, o)
 	})
@@ -221,6 +225,7 @@ func runReaderHistory(cs *drv.Case, ops []rOp, spec srcSpec, o readerOpts) (nont
 		panic(pnc)
 	}
 	if !returned {
+		historyGaveUp.Store(true)
 		cs.Fail("operation-never-returned", M{"reader": "history"}, M{"ops": opsString(ops), "source": spec.desc(), "bytes_reader": o.bytesReader,
 			"message": fmt.Sprintf("a reader operation of this history had not returned after %v", historyBound)})
 	}
@@ -228,6 +233,8 @@ func runReaderHistory(cs *drv.Case, ops []rOp, spec srcSpec, o readerOpts) (nont
 }
 
 const historyBound = 120 * time.Second
+
+var historyGaveUp atomic.Bool
 
 func runReaderHistoryInner(cs *drv.Case, ops []rOp, spec srcSpec, o readerOpts) (nontrivial bool) {
 	var rd bufiox.Reader
